@@ -481,15 +481,17 @@ def execute(case: dict) -> tuple[bool, list[str]]:
         code = w.ws.close_code
         delivered = w.peer_t.total_delivered == w.peer_t.total_written  # the peer's Close actually reached aiohttp
         if peer_codes and len(set(peer_codes)) == 1 and not faulty and consumer and closes and cfg["heartbeat"] is None and delivered:
-            if code != peer_codes[0]:
-                sub = "/server-close-during-receive" if (w.side == "server" and code == 1000 and any(r[0] == "CLOSING" for r in w.recv_log)) else ""
-                raise Violation("close-code/server-close-during-receive" if sub else "close-code/clean-handshake", f"both Close frames were exchanged (peer sent {peer_codes[0]}, we sent {close_code_of(frames[closes[0]][1])}) but close_code={code}; cfg={cfg} sched={sched}")
+            # a server close() that races a pending receive() closes the transport without reading the peer's Close (pinned by
+            # test_concurrent_close): the Close may sit unread in the queue, so the handshake is not "clean" -> DON'T-CARE here,
+            # MUST-1006 below when the peer sent none
+            unread_by_design = w.side == "server" and any(r[0] == "CLOSING" for r in w.recv_log)
+            if code != peer_codes[0] and not unread_by_design:
+                raise Violation("close-code/clean-handshake", f"both Close frames were exchanged (peer sent {peer_codes[0]}, we sent {close_code_of(frames[closes[0]][1])}) but close_code={code}; cfg={cfg} sched={sched}")
         garbage = any(e[0] == "peer" and e[1] == "garbage" for e in sched)
         cancels = any(e[0] == "cancel" for e in sched)
         if not peer_codes and not garbage and not cancels and (w.ws.closed or any(r[0] == "CLOSED" for r in w.recv_log)):
             if code != 1006:
-                sub = "/server-close-during-receive" if (w.side == "server" and code == 1000 and any(r[0] == "CLOSING" for r in w.recv_log)) else ""
-                raise Violation("close-code/server-close-during-receive" if sub else "close-code/abnormal-end", f"the session ended without any Close frame from the peer but close_code={code} (expected 1006); recv={w.recv_log} closes={w.close_log}; cfg={cfg} sched={sched}")
+                raise Violation("close-code/abnormal-end", f"the session ended without any Close frame from the peer but close_code={code} (expected 1006); recv={w.recv_log} closes={w.close_log}; cfg={cfg} sched={sched}")
 
         # ---- leftovers
         for t in w.other_tasks:
